@@ -104,6 +104,8 @@ def extract(case, li, ei, res, ns, nc):
         elif op in ("iterate", "iterate_n", "run"):
             if pending is not None:
                 h.problems.append("action without observation before op %d" % ev["i"])
+            if op == "iterate_n" and ep["ops"][ev["i"]][1] == 0:
+                op = "iterate_n0"       # an empty batch: a loop call that performs no iteration
             pending = (op, ev["ret"])
         elif op == "sample":
             if pending is not None:
@@ -293,6 +295,15 @@ def sampler_oracle(h, phys, viol, stats, tag="C09", fixed_step=True):
                 if o.ns == len(recs) + 1:
                     recs.append((o.t, o.x))
                 stats["explicit_unarmed"] = stats.get("explicit_unarmed", 0) + 1
+        elif kind == "iterate_n0":
+            stats["empty_batches"] = stats.get("empty_batches", 0) + 1
+            if o.t != prev.t or not same(o.x, prev.x) or o.ns != prev.ns:
+                bad("iterate_n(0) changed the engine", action=ai)
+                return
+            if bool(ret) != (not complete):
+                bad("iterate_n(0) returned %r although the run %s" % (
+                    ret, "has reported completion" if complete else "has not completed"), action=ai)
+                return
         elif kind in ("noop", "is_complete", "progress"):
             if o.t != prev.t or not same(o.x, prev.x) or o.ns != prev.ns:
                 bad("a read-only call (%s) changed the engine" % kind, action=ai)
